@@ -16,6 +16,21 @@ import (
 // genExtValues yields random instances of every built-in extension type.
 func genExtValues(rg *rand.Rand) []tls.TLSExtension {
 	n := func(max int) int { return rg.Intn(max + 1) }
+	// a quarter of the values are drawn at the sizes where a length prefix changes its high
+	// byte or overflows one byte (entry counts / byte lengths around 127, 255, 511), capped by
+	// the field's own limit
+	boundary := rg.Intn(4) == 0
+	bsizes := []int{125, 126, 127, 128, 129, 253, 254, 255, 256, 257, 258, 509, 510, 511, 512, 513}
+	bn := func(small, hard int) int {
+		if boundary && rg.Intn(2) == 0 {
+			for try := 0; try < 8; try++ {
+				if v := bsizes[rg.Intn(len(bsizes))]; v <= hard {
+					return v
+				}
+			}
+		}
+		return rg.Intn(small + 1)
+	}
 	u16list := func(max int) []uint16 {
 		l := make([]uint16, 1+n(max))
 		for i := range l {
@@ -60,15 +75,15 @@ func genExtValues(rg *rand.Rand) []tls.TLSExtension {
 		}
 		shares = append(shares, tls.KeyShare{Group: g, Data: randBytes(rg, sz)})
 	}
-	algs := make([]tls.CertCompressionAlgo, 1+n(6))
+	algs := make([]tls.CertCompressionAlgo, 1+bn(6, 126))
 	for i := range algs {
 		algs[i] = tls.CertCompressionAlgo(rg.Intn(65536))
 	}
-	vers := u16list(8)
+	vers := u16list(bn(8, 126))
 	nid := 1 + n(2)
 	fpsk := &tls.FakePreSharedKeyExtension{}
 	for i := 0; i < nid; i++ {
-		fpsk.Identities = append(fpsk.Identities, tls.PskIdentity{Label: randBytes(rg, 1+n(300)), ObfuscatedTicketAge: rg.Uint32()})
+		fpsk.Identities = append(fpsk.Identities, tls.PskIdentity{Label: randBytes(rg, 1+bn(300, 2000)), ObfuscatedTicketAge: rg.Uint32()})
 		fpsk.Binders = append(fpsk.Binders, randBytes(rg, []int{32, 48}[rg.Intn(2)]))
 	}
 	ech := tls.BoringGREASEECH()
@@ -86,36 +101,36 @@ func genExtValues(rg *rand.Rand) []tls.TLSExtension {
 		ech = &tls.GREASEEncryptedClientHelloExtension{CandidateCipherSuites: cands, CandidatePayloadLens: lens}
 	}
 	host := []string{"", "example.test", "192.0.2.1", "a.b.c.test.", sniOfLen(3+n(250), 1)}[rg.Intn(5)]
-	pad := &tls.UtlsPaddingExtension{PaddingLen: n(600), WillPad: rg.Intn(4) != 0}
+	pad := &tls.UtlsPaddingExtension{PaddingLen: bn(600, 4000), WillPad: rg.Intn(4) != 0}
 	return []tls.TLSExtension{
 		&tls.SNIExtension{ServerName: host},
 		&tls.StatusRequestExtension{},
-		&tls.SupportedCurvesExtension{Curves: curves(12)},
-		&tls.SupportedPointsExtension{SupportedPoints: randBytes(rg, 1+n(4))},
-		&tls.SignatureAlgorithmsExtension{SupportedSignatureAlgorithms: sigs(20)},
+		&tls.SupportedCurvesExtension{Curves: curves(bn(12, 600))},
+		&tls.SupportedPointsExtension{SupportedPoints: randBytes(rg, 1+bn(4, 254))},
+		&tls.SignatureAlgorithmsExtension{SupportedSignatureAlgorithms: sigs(bn(20, 600))},
 		&tls.StatusRequestV2Extension{},
-		&tls.SignatureAlgorithmsCertExtension{SupportedSignatureAlgorithms: sigs(20)},
+		&tls.SignatureAlgorithmsCertExtension{SupportedSignatureAlgorithms: sigs(bn(20, 600))},
 		&tls.ALPNExtension{AlpnProtocols: protos()},
 		&tls.ApplicationSettingsExtension{SupportedProtocols: protos()},
 		&tls.ApplicationSettingsExtensionNew{SupportedProtocols: protos()},
 		&tls.SCTExtension{},
-		&tls.GenericExtension{Id: uint16(0x8000 + rg.Intn(4096)), Data: randBytes(rg, n([]int{0, 10, 2000}[rg.Intn(3)]))},
+		&tls.GenericExtension{Id: uint16(0x8000 + rg.Intn(4096)), Data: randBytes(rg, bn([]int{0, 10, 2000}[rg.Intn(3)], 60000))},
 		&tls.ExtendedMasterSecretExtension{},
 		&tls.UtlsGREASEExtension{Value: 0x0a0a + uint16(rg.Intn(16))*0x1010, Body: randBytes(rg, n(3))},
 		pad,
 		&tls.UtlsCompressCertExtension{Algorithms: algs},
 		&tls.KeyShareExtension{KeyShares: shares},
 		&tls.QUICTransportParametersExtension{TransportParameters: genTPList(rg)},
-		&tls.PSKKeyExchangeModesExtension{Modes: randBytes(rg, 1+n(3))},
+		&tls.PSKKeyExchangeModesExtension{Modes: randBytes(rg, 1+bn(3, 254))},
 		&tls.SupportedVersionsExtension{Versions: vers},
-		&tls.CookieExtension{Cookie: randBytes(rg, 1+n(500))},
+		&tls.CookieExtension{Cookie: randBytes(rg, 1+bn(500, 60000))},
 		&tls.NPNExtension{},
 		&tls.RenegotiationInfoExtension{RenegotiatedConnection: randBytes(rg, []int{0, 0, 12, 36}[rg.Intn(4)])},
 		&tls.FakeChannelIDExtension{OldExtensionID: rg.Intn(2) == 0},
 		&tls.FakeRecordSizeLimitExtension{Limit: uint16(rg.Intn(65536))},
 		&tls.FakeTokenBindingExtension{MajorVersion: byte(n(3)), MinorVersion: byte(n(20)), KeyParameters: randBytes(rg, 1+n(4))},
-		&tls.FakeDelegatedCredentialsExtension{SupportedSignatureAlgorithms: sigs(8)},
-		&tls.SessionTicketExtension{Ticket: randBytes(rg, []int{0, 50, 300}[rg.Intn(3)]), Initialized: true},
+		&tls.FakeDelegatedCredentialsExtension{SupportedSignatureAlgorithms: sigs(bn(8, 600))},
+		&tls.SessionTicketExtension{Ticket: randBytes(rg, bn([]int{0, 50, 300}[rg.Intn(3)], 30000)), Initialized: true},
 		fpsk,
 		&tls.UtlsPreSharedKeyExtension{OmitEmptyPsk: true}, // uninitialised real PSK: documented zero-length encoding
 		ech,
